@@ -515,6 +515,11 @@ class Interp:
         if isinstance(base, SFrame):
             if isinstance(idx, str):
                 if isinstance(val, STensor):
+                    tok = getattr(val, 'index_of', None)
+                    if tok is not None and tok is not base.index_token and not (tok == 'range' and base.index_token == 'range'):
+                        # frame[col] = <Series of a frame with another index>: pandas aligns on the index labels (missing labels -> NaN), which is
+                        # not the positional assignment modelled here
+                        raise Unsupported('assignment of a Series that carries another index (pandas aligns on labels, not on positions)')
                     base.columns[idx] = val
                 else:
                     v = val
@@ -680,7 +685,14 @@ class Interp:
             f = lambda x, y: binop(op, x, y)  # noqa: E731  (numpy array division never raises: inf/nan + warning)
             if self.ctx.ghost.get('fp_standard_model') and op in ('*', '/'):
                 f = self.fp_wrap(op, line)
-            return V.elementwise(self.ctx, f, a2, b2, dtype='real' if op == '/' else None, line=line)
+            res_ = V.elementwise(self.ctx, f, a2, b2, dtype='real' if op == '/' else None, line=line)
+            toks = [getattr(x, 'index_of', None) for x in (a, b) if isinstance(x, STensor)]
+            toks = [t_ for t_ in toks if t_ is not None]
+            if toks and isinstance(res_, STensor):
+                if any(t_ is not toks[0] and t_ != toks[0] for t_ in toks[1:]):
+                    raise Unsupported('arithmetic between Series of frames with different indices (pandas aligns on labels)')
+                res_.index_of = toks[0]
+            return res_
         if isinstance(a, (list, tuple)) and isinstance(b, (list, tuple)) and op == '+':
             return a + b
         if isinstance(a, list) and isinstance(b, SSeq) and op == '+':
